@@ -12,12 +12,12 @@ import nn_ref_c17 as ref
 
 ID = 'C17'
 LEVEL = 'proof'
-RULE = ('witnesses of the 6 known findings; conv1d: full grid batch 1 (plus a sample of batch 2), C 1..4 x every divisor as groups x O in {g,2g}, '
+RULE = ('witnesses of the 2 known findings; conv1d: full grid batch 1..2, C 1..4 x every divisor as groups x O in {g,2g}, '
         'L 1..5 (quick) / 1..7, K 1..3, stride 1..3, padding 0..2, dilation 1..2, positive output size, bias on/off, defaults passed as None '
-        'or as the explicit value, float32 and int element types, plus seeded cases beyond the grid (C<=6, L<=12, K<=5, s<=4, p<=3, d<=3); '
-        'conv2d: seeded sample (700 quick / 15000 thorough) of the same ranges with None / int / pair argument forms; pooling: every (H,W) 1..5 '
+        'or as the explicit value, float32 and int element types, plus seeded cases beyond the grid (batch<=3, C<=6, L<=12, K<=5, s<=4, p<=3, d<=3); '
+        'conv2d: seeded sample (700 quick / 15000 thorough) of the same ranges, batch 1..2, with None / int / pair argument forms; pooling: every (H,W) 1..5 '
         '(quick, interior thinned 1:3) / 1..7, kernel 1..3, stride 1..3 per axis, ceil on/off, 0..2 leading axes: shape_pool2d, slice_pool2d, window '
-        'provenance fold through view::pool2d, max_pool2d, avg_pool2d; softmax/softmin over every axis (negative too) of rank 1..4; '
+        'provenance fold through view::pool2d, max_pool2d, avg_pool2d (data -9..9, so all-negative windows occur); softmax/softmin over every axis (negative too) of rank 1..4; '
         'batch/layer/instance/group norm on rank 2..4 (every trailing normalized_shape, every divisor as num_groups); linear, bilinear, '
         'pairwise_distance (default and ord/eps/keepdims forms, broadcast, equal operands), cosine_similarity (every axis, zero vectors) on rank 1..3. '
         'integer-valued data compared exactly, float results within 4 ulp(float32) x terms x magnitude. non-trivial = parameters not all default')
@@ -29,18 +29,19 @@ ANCHORS = {'NmVerif.NN.convnd (convWeight, convInput, convCore, convBias, convSt
                'index::shape_sliding_window + sliding_window, view/expand.hpp shape_expand + expand, index::shape_pad + pad, reshape, broadcast, reduce, slice as used by convnd',
            'NmVerif.NN.shapePool2d / slicePool2d / poolWindow / poolFold':
                'index::shape_pool2d, index::slice_pool2d, view::pool2d_t::operator() (apply_slice + flatten + reducer)'}
-ASSUMPTIONS = ['shape_pool2d and the strided slice compute extents in float32 (ceil/floor of a float quotient): exact only while the quotient is representable (extents < 2^24); the model uses naturals',
+ASSUMPTIONS = ['the tree under test carries the fix commits of fixes/C17-conv-batch, C17-conv2d-dilation-pair, C17-pool-ceil-window, C17-max-pool-initial (the model mirrors the repaired code; the group interleaving of conv_reshape_weight is mirrored as it is)',
+               'shape_pool2d and the strided slice compute extents in float32 (ceil/floor of a float quotient): exact only while the quotient is representable (extents < 2^24); the model uses naturals',
                'k <= n for pooling (the C++ wraps in size_t otherwise; the reference rejects it)',
                'floating-point tolerance (4 ulp x terms) is a harness statement, not a Lean statement',
                'the conv theorems are stated over integer-valued arrays (Arr Int) for all inputs: an identity of term sets, not a statement about float rounding',
                'PyTorch itself is not available: the reference is lib/nn_ref_c17.py written from the documented formulas']
-PARTIAL = ['conv2d with pair-form arguments (s_h,s_w) / (p_h,p_w) / (d_h,d_w): no theorem (conv2d_eq_code_loop covers None | int forms); model correspondence + oracle only',
-           'softmax, softmin, batch/layer/instance/group norm, linear, bilinear, pairwise_distance, cosine_similarity: no Lean theorem (compositions of the C06-C08 pieces over opaque real operations); oracle comparison only',
+PARTIAL = ['softmax, softmin, batch/layer/instance/group norm, linear, bilinear, pairwise_distance, cosine_similarity: no Lean theorem (compositions of the C06-C08 pieces over opaque real operations); oracle comparison only',
            'max/avg pooling: theorems cover output shape and the window element set handed to the reducer; the reduction itself (reduce_maximum / mean) is compared with the oracle only',
-           'conv*_eq_nested_loop hold on groups = 1 or O = groups, batch 1 (outside: conv1d_groups_counterexample, conv1d_batch_counterexample); conv*_eq_code_loop hold for every groups with the code\'s group assignment o % g']
+           'conv1d theorem covers None | int argument forms (one plane); conv2d theorem covers None | int | pair forms',
+           'conv*_eq_nested_loop (PyTorch group assignment) hold on groups = 1 or O = groups (outside: conv1d_groups_counterexample, conv2d_groups_counterexample); conv*_eq_code_loop hold for every groups with the code\'s assignment o % g']
 MANIFEST = dict(
-    text='Proof: 15 Lean theorems. conv1d and conv2d: the mirrored view::convnd pipeline (reshape by groups, pad, sliding_window of input and of the dilation-expanded weight, multiply, sum, reshape, bias, strided slice) is defined, has the extent floor((n+2p-d(k-1)-1)/s)+1 and each element is the nested loop over (channel, kernel) terms, for every extent, kernel, stride, padding, dilation, groups and optional bias (None or int forms); equal to the PyTorch loop for groups = 1 or one output channel per group, with kernel-checked counterexamples for the three conv defects found. Pooling: shape_pool2d = PyTorch extents in floor and ceil mode, every window is non-empty, inside the input and equal to the clipped reference window, for any number of leading axes. Tied to the headers by a differential run of conv1d/conv2d/pool2d (model + nested-loop oracle) and of softmax/softmin/4 norms/linear/bilinear/pairwise_distance/cosine_similarity (oracle) on every check.',
-    note='Lean kernel + propext/Classical.choice/Quot.sound; model hand-written, fidelity rests on the correspondence run; softmax/norm/linear routines have no theorem (oracle comparison within 4 ulp x terms); 6 known findings of the unchanged tree (batch > 1, group interleaving, dilation pair order, ceil-mode window outside, max_pool2d initial 0, batch_norm rank).',
+    text='Proof: 12 Lean theorems. conv1d and conv2d: the mirrored view::convnd pipeline (reshape by groups, pad, sliding_window of input and of the dilation-expanded weight, multiply, sum, reshape, bias, strided slice) is defined, has the extent floor((n+2p-d(k-1)-1)/s)+1 per plane and each element is the nested loop over (channel, kernel) terms, for every batch, extent, kernel, stride, padding, dilation, groups and optional bias (None / int forms, and pairs for conv2d) with the code\'s group assignment o % g; equal to the PyTorch loop for groups = 1 or one output channel per group, with kernel-checked counterexamples outside. Pooling: shape_pool2d = PyTorch extents in floor and ceil mode (with the last-window rule), every window is non-empty, inside the input and equal to the clipped reference window, for any number of leading axes. Tied to the headers by a differential run of conv1d/conv2d/pool2d (model + nested-loop oracle) and of softmax/softmin/4 norms/linear/bilinear/pairwise_distance/cosine_similarity (oracle) on every check.',
+    note='Lean kernel + propext/Classical.choice/Quot.sound; model hand-written, fidelity rests on the correspondence run; softmax/norm/linear routines have no theorem (oracle comparison within 4 ulp x terms); four defects found by this check were repaired in /repo (fixes/C17-*.diff); two known findings remain (conv group interleaving for O/groups > 1, batch_norm on rank 2/3 inputs).',
     technique='Lean 4 proofs over the mirrored convnd / pool2d index pipeline (Mathlib ring tactic in lemma files only) + differential correspondence + independent nested-loop NumPy oracle')
 
 H_C1, H_C2A, H_C2B, H_POOL, H_NORM, H_LIN = 'h_c17_conv1d', 'h_c17_conv2d_nb', 'h_c17_conv2d_b', 'h_c17_pool', 'h_c17_norm', 'h_c17_lin'
@@ -137,73 +138,21 @@ def oi(v):
 # known-finding input classes (membership decided from the request only)
 # ---------------------------------------------------------------------------------------------
 
-def _is_conv(c):
-    return c.req.startswith('conv1d ') or c.req.startswith('conv2d ')
-
-
-def k_conv_batch(c):
-    return _is_conv(c) and ints(argstr(c.req)['xs'])[0] > 1
-
-
 def k_conv_groups(c):
-    if not _is_conv(c):
+    """conv1d / conv2d with groups > 1 and more than one output channel per group"""
+    if not (c.req.startswith('conv1d ') or c.req.startswith('conv2d ')):
         return False
     a = argstr(c.req)
     g = int(a['groups'])
-    return ints(a['xs'])[0] == 1 and g > 1 and ints(a['ws'])[0] // g > 1
-
-
-def k_conv2d_dilation_pair(c):
-    if not c.req.startswith('conv2d '):
-        return False
-    d = argstr(c.req)['dilation']
-    if d == 'None':
-        return False
-    d = ints(d)
-    return len(d) == 2 and d[0] != d[1]
-
-
-def _pool_bad_axis(n, k, s):
-    # nmtools ceil-mode extent = ceil((n-k)/s)+1 ; PyTorch drops a last window that would start at or beyond n
-    o = -((-(n - k)) // s) + 1
-    return (o - 1) * s >= n
-
-
-def k_pool_ceil_outside(c):
-    op = c.req.split(' ')[0]
-    if op not in ('pool_shape', 'pool_fold', 'max_pool2d', 'avg_pool2d'):
-        return False
-    a = argstr(c.req)
-    if a['ceil'] != '1':
-        return False
-    shape = ints(a['shape'] if op == 'pool_shape' else a['xs'])
-    k, s = ints(a['kernel']), ints(a['stride'])
-    return any(_pool_bad_axis(shape[-2 + i], k[i], s[i]) for i in range(2))
+    return g > 1 and ints(a['ws'])[0] // g > 1
 
 
 def k_batch_norm_rank(c):
     return c.req.startswith('batch_norm ') and len(ints(argstr(c.req)['xs'])) != 4
 
 
-def k_max_pool_negative(c):
-    """max_pool2d where some (reference) window holds only negative values"""
-    if not c.req.startswith('max_pool2d '):
-        return False
-    a = argstr(c.req)
-    shape = ints(a['xs']); x = [float(t) for t in a['x'].split(',')]
-    try:
-        _, wins = ref.pool_windows(shape, ints(a['kernel']), ints(a['stride']), a['ceil'] == '1')
-    except ref.RefError:
-        return False
-    return any(all(x[i] < 0 for i in w) for w in wins)
-
-
 KNOWN_PREDICATES = {
-    'max_pool_negative_window': k_max_pool_negative,
-    'conv_batch_gt1': k_conv_batch,
     'conv_groups_interleaved': k_conv_groups,
-    'conv2d_dilation_pair_reversed': k_conv2d_dilation_pair,
-    'pool_ceil_window_outside': k_pool_ceil_outside,
     'batch_norm_rank_not4': k_batch_norm_rank,
 }
 
@@ -265,8 +214,8 @@ def conv_case(rng, nsp, N, C, g, O, sp, ks, s, p, d, bias, forms, dt='f', model=
     else:
         h = H_C2B if bias else H_C2A
     c = Case(req, h, oracle=oracle, model=model, nontrivial=nontriv, tags=tags)
-    # on-domain = where the Lean theorems say MODEL = SPEC: batch 1 and (groups = 1 or one output channel per group), equal dilation pair
-    c.dom = not (k_conv_batch(c) or k_conv_groups(c) or k_conv2d_dilation_pair(c)) and 'pair' not in forms
+    # on-domain = hypotheses of conv1d_eq_nested_loop / conv2d_eq_nested_loop: groups = 1 or one output channel per group
+    c.dom = not k_conv_groups(c)
     return c
 
 
@@ -300,11 +249,12 @@ def gen_conv1d(tier, rng):
                                     bias = bool(h & 1)
                                     forms = (pick_form(key + 's', [s], 1, False), pick_form(key + 'p', [p], 0, False), pick_form(key + 'd', [d], 1, False))
                                     dt = 'i' if (h >> 3) % 4 == 0 else 'f'
-                                    c = conv_case(rng, 1, 1, C, g, O, [L], [K], [s], [p], [d], bias, forms, dt)
+                                    N = 1 + (h >> 7) % 2
+                                    c = conv_case(rng, 1, N, C, g, O, [L], [K], [s], [p], [d], bias, forms, dt)
                                     if c is not None:
                                         yield c
                                     if tier != 'quick' or (h >> 5) % 4 == 0:
-                                        c = conv_case(rng, 1, 1, C, g, O, [L], [K], [s], [p], [d], not bias, forms, dt)
+                                        c = conv_case(rng, 1, 3 - N, C, g, O, [L], [K], [s], [p], [d], not bias, forms, dt)
                                         if c is not None:
                                             yield c
     # beyond the property's grid: larger extents / kernels / strides, seeded
@@ -315,17 +265,9 @@ def gen_conv1d(tier, rng):
             continue
         key = 'c1r %d %d %d %d %d %d %d %d' % (C, g, O, L, K, s_, p_, d_)
         forms = (pick_form(key + 's', [s_], 1, False), pick_form(key + 'p', [p_], 0, False), pick_form(key + 'd', [d_], 1, False))
-        c = conv_case(rng, 1, 1, C, g, O, [L], [K], [s_], [p_], [d_], bool(rng.randint(0, 1)), forms, 'f')
+        c = conv_case(rng, 1, rng.randint(1, 3), C, g, O, [L], [K], [s_], [p_], [d_], bool(rng.randint(0, 1)), forms, 'f')
         if c is not None:
             c.tags = c.tags + ('beyond-grid',)
-            yield c
-    # batch 2: the implementation cannot reshape it (known finding) -> a small sample only (each request kills or upsets the harness)
-    nb = 6 if tier == 'quick' else 24
-    for t in range(nb):
-        C = rng.randint(1, 3); L = rng.randint(2, 5); K = rng.randint(1, 2)
-        forms = ('none', 'none', 'none') if t % 2 == 0 else ('int', 'int', 'int')
-        c = conv_case(rng, 1, 2, C, 1, rng.randint(1, 2), [L], [K], [1], [0], [1], bool(t & 2), forms, 'f', model=False)
-        if c is not None:
             yield c
 
 
@@ -358,13 +300,9 @@ def gen_conv2d(tier, rng):
         ks = 'c2 ' + repr(key)
         forms = (pick_form(ks + 's', s, 1, True), pick_form(ks + 'p', p, 0, True), pick_form(ks + 'd', d, 1, True))
         bias = bool(rng.randint(0, 1))
-        c = conv_case(rng, 2, 1, C, g, O, [H, W], [kh, kw], s, p, d, bias, forms)
+        c = conv_case(rng, 2, rng.randint(1, 2), C, g, O, [H, W], [kh, kw], s, p, d, bias, forms)
         if c is not None:
             made += 1
-            yield c
-    for t in range(2 if tier == 'quick' else 8):
-        c = conv_case(rng, 2, 2, 1, 1, 1, [3, 3], [2, 2], [1, 1], [0, 0], [1, 1], bool(t & 1), ('none', 'none', 'none'), model=False)
-        if c is not None:
             yield c
 
 
@@ -403,8 +341,6 @@ def gen_pool(tier, rng):
                                 nt = not (kh == 1 and kw == 1 and sh == 1 and sw == 1)
                                 com = 'kernel=%d,%d stride=%d,%d ceil=%d' % (kh, kw, sh, sw, ceil)
                                 c = Case('pool_shape shape=%s %s' % (fmt(shape), com), H_POOL, oracle='ok ' + fmt(oshape), nontrivial=nt, tags=tags + ['pool_shape'])
-                                bad = k_pool_ceil_outside(c)
-                                c.dom = not bad
                                 yield c
                                 # window fold over provenance data through the real view::pool2d
                                 folds = []
@@ -414,11 +350,10 @@ def gen_pool(tier, rng):
                                         acc = (31 * acc + sid + 1) % 2 ** 32
                                     folds.append(acc)
                                 c = Case('pool_fold xs=%s %s' % (fmt(shape), com), H_POOL, oracle='ok shape=%s data=%s' % (fmt(oshape), fmt(folds)),
-                                         nontrivial=nt, tags=tags + ['pool_fold'], model=not bad)
-                                c.dom = not bad
+                                         nontrivial=nt, tags=tags + ['pool_fold'])
                                 yield c
                                 # slices of the last output index (overhang lives there) and of a random one
-                                if not bad:
+                                if True:
                                     idxs = [[t - 1 for t in oshape]]
                                     idxs.append([rng.randrange(t) for t in oshape])
                                     for idx in idxs:
@@ -434,12 +369,10 @@ def gen_pool(tier, rng):
                                     mx = ref.pool2d(xa, [kh, kw], [sh, sw], bool(ceil), 'max')
                                     c = Case('max_pool2d dt=%s xs=%s x=%s %s' % (dt, fmt(shape), fmt(x), com), H_POOL, oracle=fres(mx), model=False,
                                              nontrivial=nt, tags=tags + ['max_pool2d', 'dt=' + dt])
-                                    c.dom = not bad
                                     yield c
                                     av = ref.pool2d(xa, [kh, kw], [sh, sw], bool(ceil), 'avg')
                                     c = Case('avg_pool2d dt=%s xs=%s x=%s %s' % (dt, fmt(shape), fmt(x), com), H_POOL, oracle=fres(av), model=False,
                                              nontrivial=nt, tags=tags + ['avg_pool2d', 'dt=' + dt], cmp=close_cmp(kh * kw + 2, 9.0))
-                                    c.dom = not bad
                                     yield c
 
 
@@ -610,7 +543,7 @@ def gen_witnesses(tier, rng):
         h = hmap.get(op) or (H_C2A if argstr(req)['b'] == 'None' else H_C2B)
         o = oracle_for(req)
         cmpf = close_cmp(8, 8.0) if op in ('batch_norm', 'avg_pool2d') else None
-        yield Case(req, h, oracle=o, dom=False, model=op in ('conv1d', 'conv2d', 'pool_shape') and not k_conv_batch(Case(req, h)),
+        yield Case(req, h, oracle=o, dom=False, model=op in ('conv1d', 'conv2d', 'pool_shape'),
                    tags=['witness', 'witness:' + e['id']], cmp=cmpf)
 
 
